@@ -52,4 +52,33 @@ theorem hasCp_loop (position : Rat) (d : Nat) (self : SegK) (bound : Nat) : ∀ 
     · simp only [hc, decide_false, Bool.false_eq_true, if_false, Bool.false_or]
       exact ih (cp + 1) (by omega)
 
+/-- the in-bounds obligations of that loop (`cp < checkpoints.size()`, `dim < 2` for the point read) hold when every
+    checkpoint has more than `d` coordinates -/
+theorem hasCp_loop_pre (position : Rat) (d : Nat) (self : SegK) (bound : Nat)
+    (hlen : ∀ c ∈ self.checkpoints, d < c.length) : ∀ (fuel cp : Nat),
+    cp + fuel = self.checkpoints.length →
+    NudgeK.hasCheckpointAtPosition_loop1_pre position d self bound fuel cp = true := by
+  intro fuel
+  induction fuel with
+  | zero => intro cp _; simp [NudgeK.hasCheckpointAtPosition_loop1_pre]
+  | succ n ih =>
+    intro cp h
+    have hlt : cp < self.checkpoints.length := by omega
+    have hg : self.checkpoints.getD cp default = self.checkpoints[cp] := by
+      simp [List.getD, List.getElem?_eq_getElem hlt]
+    have hd := hlen _ (List.getElem_mem hlt)
+    unfold NudgeK.hasCheckpointAtPosition_loop1_pre
+    rw [hg]
+    simp only [hlt, hd, decide_true, Bool.and_self, Bool.true_and]
+    split
+    · rfl
+    · exact ih (cp + 1) (by omega)
+
+/-- the checkpoints of the C++ object built from a model segment are two-coordinate points -/
+theorem toK_cp_len (o : ROpts) (dim : Nat) (s : RSeg) : ∀ c ∈ (toK o dim s).checkpoints, c.length = 2 := by
+  intro c hc
+  simp only [toK, List.mem_map] at hc
+  obtain ⟨x, _, rfl⟩ := hc
+  unfold ptOf; split <;> rfl
+
 end AdaptaVerif.Lemmas.NudgeBridge
